@@ -20,6 +20,7 @@ CONSTANTS
     Serial = FALSE
     Det = FALSE
     Probe = FALSE
+    TraceExpired <- NoOracle
 VIEW View
 INVARIANTS TypeOK MutualExclusion CloseAtMostOnce CloseExactlyOnceAtRest CloseAccounting NoLockLeak LockHolderSane Isolation HandlerSeesOwnSession
 PROPERTIES DrainRefusesOpen NoResurrection
